@@ -140,7 +140,6 @@ class GenTr(FxTr):
         self.requests = [(_parse_expr(src), con, tys, resume) for (src, con, tys, resume) in spec.requests]
         self.callouts = [(_parse_stmt(src), con, tys) for (src, con, tys) in spec.callouts]
         self.raises = [(_parse_stmt(src), con) for (src, con) in spec.raises]
-        self.draw_dumps = {d for (d, _, _, _) in self.draws}
         # program points: every yield statement and every listed call-out of the method, in source order
         pts = []
         for n in ast.walk(f):
@@ -229,15 +228,48 @@ class GenTr(FxTr):
 
     @staticmethod
     def names_after(kont):
-        """local names mentioned in the statements that may run after a program point"""
-        out = set()
-        for item in kont:
-            nodes = [item.loop] if isinstance(item, _Back) else list(item.node.handlers) if isinstance(item, _EndTry) else [item]
-            for node in nodes:
-                for n in ast.walk(node):
-                    if isinstance(n, ast.Name):
-                        out.add(n.id)
-        return out
+        """local names that may be READ before they are written in the statements that run after a program point
+        (backward liveness over the structured continuation; an over-approximation is harmless: a frame entry that is
+        never read is an unused parameter, a missing one is Unsupported)"""
+        def names(node):
+            return {n.id for n in ast.walk(node) if isinstance(n, ast.Name)} if node is not None else set()
+
+        def live(stmts, out, brk, cont):
+            for s in reversed(stmts):
+                if isinstance(s, _Back):
+                    s = s.loop
+                if isinstance(s, _EndTry):
+                    for h in s.node.handlers:                   # an interrupt thrown at a point inside the try
+                        out = out | live(list(h.body), out, brk, cont)
+                elif isinstance(s, (ast.Assign, ast.AnnAssign)) and isinstance(
+                        (s.targets[0] if isinstance(s, ast.Assign) and len(s.targets) == 1 else getattr(s, "target", None)), ast.Name):
+                    t = s.targets[0] if isinstance(s, ast.Assign) else s.target
+                    out = (out - {t.id}) | names(s.value)
+                elif isinstance(s, ast.If):
+                    out = names(s.test) | live(list(s.body), out, brk, cont) | live(list(s.orelse), out, brk, cont)
+                elif isinstance(s, ast.While):
+                    head = out | names(s.test)
+                    while True:
+                        nxt = head | live(list(s.body), head, out, head)
+                        if nxt == head:
+                            break
+                        head = nxt
+                    out = head
+                elif isinstance(s, ast.Try):
+                    inner = out
+                    for h in s.handlers:
+                        inner = inner | live(list(h.body), out, brk, cont)
+                    out = inner | live(list(s.body), inner, brk, cont)
+                elif isinstance(s, ast.Break):
+                    out = set(brk)
+                elif isinstance(s, ast.Continue):
+                    out = set(cont)
+                elif isinstance(s, _RaiseMark):
+                    out = set()
+                else:
+                    out = out | names(s)
+            return out
+        return live(list(kont), set(), set(), set())
 
     @staticmethod
     def kont_key(kont):
@@ -385,42 +417,9 @@ class GenTr(FxTr):
         node = ast.If(test=w.test, body=list(w.body) + [_Back(w)], orelse=[])
         return self.do_if(node, rest, env2, k, force_split=True)
 
-    # a draw inside the test of an if
-    def has_draw(self, e):
-        return any(isinstance(n, ast.expr) and ast.dump(n) in self.draw_dumps for n in ast.walk(e))
-
-    def hoist_draw(self, test, env):
-        """test = a condition without and / or / not at its top that contains listed draws: Python evaluates all of it,
-        left to right; each draw becomes a fresh local bound to its parameter, the effect is recorded"""
-        for n in ast.walk(test):
-            if isinstance(n, (ast.BoolOp, ast.IfExp, ast.Lambda, ast.ListComp, ast.GeneratorExp, ast.SetComp, ast.DictComp)):
-                raise Unsupported("a draw under and / or / a conditional expression inside a larger expression")
-        env2 = self.copy(env)
-        order = []
-
-        class R(ast.NodeTransformer):
-            def visit(inner, node):
-                if isinstance(node, ast.expr):
-                    d = ast.dump(node)
-                    for (dd, p, ty, con) in self.draws:
-                        if dd == d:
-                            order.append((p, ty, con, node))
-                            return ast.Name(id="\0" + p, ctx=ast.Load())
-                return inner.generic_visit(node)
-        import copy as _copy
-        new = R().visit(_copy.deepcopy(test))
-        # NodeTransformer visits fields in source order = Python's evaluation order for comparisons, arithmetic and calls
-        for (p, ty, con, node) in order:
-            if p in env2["drawn"]:
-                raise Unsupported(f"second draw of {p} on one path")
-            env2["drawn"].add(p)
-            env2["fx"][1].append(con)
-            env2["vars"][("local", "\0" + p)] = V(p, ty)
-        return new, env2
-
     def do_if(self, s, rest, env, k, force_split=False):
         t = s.test
-        if self.has_draw(t):
+        if self.contains_draw(t):          # Python's evaluation order made explicit (FxTr.do_if does `and` only)
             if isinstance(t, ast.BoolOp) and len(t.values) >= 2:
                 first = t.values[0]
                 more = t.values[1] if len(t.values) == 2 else ast.BoolOp(op=t.op, values=list(t.values[1:]))
@@ -433,7 +432,8 @@ class GenTr(FxTr):
             if isinstance(t, ast.UnaryOp) and isinstance(t.op, ast.Not):
                 node = ast.If(test=t.operand, body=list(s.orelse) or [ast.Pass()], orelse=list(s.body))
                 return self.do_if(node, rest, env, k, force_split=True)
-            new, env2 = self.hoist_draw(t, env)
+            import copy as _copy
+            new, env2 = self.hoist_draws(_copy.deepcopy(t), env)    # (hoist_draws rewrites the tree it is given)
             node = ast.If(test=new, body=list(s.body), orelse=list(s.orelse))
             return self.do_if(node, rest, env2, k, force_split=True)
         if not (force_split or self.splits(s)):
@@ -580,7 +580,8 @@ def translate_gen(spec, state, record, prefix, effect_type):
     ps = (f" (s : {record})" if state else "")
     seen = {}
     tail = ""
-    for (_, p, ty, _) in list(spec.reads) + [(None, p, ty, None) for (_, p, ty, _) in spec.draws]:
+    for (_, p, ty, _) in list(spec.reads) + [(None, q, ty, None) for (_, p, ty, _) in spec.draws
+                                             for q in ([p] if isinstance(p, str) else p)]:
         if p in seen:
             if seen[p] != ty:
                 raise Unsupported(f"parameter {p} is listed with two types")
